@@ -12,6 +12,7 @@ import (
 	"github.com/markkurossi/mpc/circuit"
 	"github.com/markkurossi/mpc/compiler/utils"
 	"github.com/markkurossi/mpc/gmw"
+	"github.com/markkurossi/mpc/types"
 
 	"verifharness/internal/mpclgen"
 	"verifharness/internal/refc"
@@ -78,6 +79,37 @@ func init() {
 	})
 }
 
+// c10Deep builds w = x0 & y0; then depth times w = (w & x[i%8]) ^ y[(i/8)%8]... with
+// 8-bit inputs of two parties and 8 outputs (w ^ x[k]); the AND depth is depth+1.
+func c10Deep(depth int) *circuit.Circuit {
+	u8 := types.Info{Type: types.TUint, IsConcrete: true, Bits: 8, MinBits: 8}
+	c := &circuit.Circuit{Inputs: circuit.IO{{Name: "x", Type: u8}, {Name: "y", Type: u8}}, Outputs: circuit.IO{{Name: "r", Type: u8}}}
+	next := circuit.Wire(16)
+	add := func(op circuit.Operation, a, b circuit.Wire) circuit.Wire {
+		c.Gates = append(c.Gates, circuit.Gate{Op: op, Input0: a, Input1: b, Output: next})
+		c.Stats[op]++
+		next++
+		return next - 1
+	}
+	w := add(circuit.AND, 0, 8)
+	for i := 0; i < depth; i++ {
+		// x bits 1..7 and y bits 1..7 steer the chain; with all of them 1 the
+		// value alternates, with mixed bits it is data dependent throughout
+		t := add(circuit.AND, w, circuit.Wire(1+i%7))
+		w = add(circuit.XOR, t, circuit.Wire(8+1+(i/7)%7))
+		if i%3 == 0 {
+			w = add(circuit.XOR, w, 0) // x0 = 1 flips the chain every third step
+		}
+	}
+	for k := 0; k < 8; k++ {
+		add(circuit.XOR, w, circuit.Wire(k))
+	}
+	c.NumGates = len(c.Gates)
+	c.NumWires = int(next)
+	c.AssignLevels(utils.TargetGMW)
+	return c
+}
+
 func runC10(cs *vrt.Case) {
 	r := cs.Rng
 	P := 2 + cs.Idx%4
@@ -92,7 +124,22 @@ func runC10(cs *vrt.Case) {
 	var inputs []*big.Int
 	var circs []*circuit.Circuit
 	what := "triples"
-	if !triples {
+	if !triples && cs.Idx == 9 {
+		// one deep hand-made circuit per run: more than 65536 AND levels (one
+		// communication round each), values kept lively by an XOR per step
+		P = 2
+		what = "deep AND chain"
+		depth := 65536 + 40 + r.Intn(200)
+		for i := 0; i < P; i++ {
+			circs = append(circs, c10Deep(depth))
+		}
+		for i := 0; i < P; i++ {
+			v := r.Big(8)
+			v.SetBit(v, 0, 1) // the chain starts from x0 & y0: keep it alive
+			inputs = append(inputs, v)
+		}
+		cs.Count("deep_circuit_and_levels", int64(depth))
+	} else if !triples {
 		if cs.Idx%8 == 0 && P <= 3 {
 			src = c10Fixtures[(cs.Idx/8)%len(c10Fixtures)]
 			if strings.Contains(src, "c uint16") {
